@@ -63,6 +63,23 @@ func init() {
 		st := (*args[0].(*Value)).(Struct)
 		return Tuple{m.callFn(f, []Value{st[0]}, nil), Iface{}}
 	})
+	// Calls on a backend connection (the proxy handlers): grpc-go's client transport is replaced by
+	// the harness's in-memory backend (vfConnInvoke / vfConnNewStream); natively the harness dials a
+	// real in-process gRPC server and these run for real.
+	reg("(*google.golang.org/grpc.ClientConn).Invoke", func(m *Machine, fn *ssa.Function, args []Value) Value {
+		f := m.Prog.Func("vfConnInvoke")
+		if f == nil {
+			m.unsupported("(*grpc.ClientConn).Invoke: vfConnInvoke not defined by the harness")
+		}
+		return m.callFn(f, args[:5], nil)
+	})
+	reg("(*google.golang.org/grpc.ClientConn).NewStream", func(m *Machine, fn *ssa.Function, args []Value) Value {
+		f := m.Prog.Func("vfConnNewStream")
+		if f == nil {
+			m.unsupported("(*grpc.ClientConn).NewStream: vfConnNewStream not defined by the harness")
+		}
+		return m.callFn(f, args[:4], nil)
+	})
 	// vfBackendConn(id): under the engine a connection is just an identity
 	harnessAPI["vfBackendConn"] = func(m *Machine, args []Value) Value {
 		f := m.Prog.Func("vfBackendConnFake")
